@@ -29,6 +29,7 @@ Act(st) ==
   LET h == st.act IN
   CASE h.a = "unban" -> P!Unban(h.m)
     [] h.a = "clear" -> P!ClearPermissions
+    [] h.a = "deinit" -> P!Deinit
     [] h.a = "settrust" -> P!SetTrust(h.c, h.on)
     [] h.a = "clone" -> P!Clone(h.from, h.c)
     [] h.a = "import" -> P!ImportByName(h.c, h.m)
